@@ -125,6 +125,8 @@ def gen_py(rnd, depth=0):
     if r < 0.65:
         n = rnd.choice([0, 1, 2, 3])
         items = [gen_py(rnd, depth + 1) for _ in range(n)]
+        if n >= 2 and rnd.random() < 0.3:
+            items[1] = items[0]             # the same Python object twice in one value (a finite value, not a cycle)
         vals = [v for v, _ in items]
         ok = all(o for _, o in items)
         ok = ok and claim_covers(vals)
@@ -132,6 +134,8 @@ def gen_py(rnd, depth=0):
     if r < 0.8:
         n = rnd.choice([1, 2, 3])
         items = [gen_py(rnd, depth + 1) for _ in range(n)]
+        if n >= 2 and rnd.random() < 0.3:
+            items[-1] = items[0]
         return tuple(v for v, _ in items), all(o for _, o in items)
     n = rnd.choice([0, 1, 2])
     d, ok = {}, True
@@ -254,6 +258,9 @@ def bounded(tier, seed):
     fixed_cases = [[1, marshal.Int64(2**40)], {'a': 1, 'b': marshal.UInt64(2**64 - 1)}, {'k0': -1, 'k1': True}, [marshal.Byte(1), 300],
                    {'a': 'x', 'b': marshal.ObjectPath('/p')}, [5, True], [True, 5], ['a', marshal.ObjectPath('/b')], {'k0': 2**31 - 1, 'k1': marshal.Int64(-2**63)},
                    {marshal.ObjectPath('/a'): 1}, {marshal.Signature('i'): 's'}, {marshal.Byte(1): 'x'}, {marshal.UInt32(7): [1, 2]}, [{marshal.ObjectPath('/a'): 'v'}], (1, 'a'), (1, 2), ((1, 'a'), (1, 2))]
+    # one container object reachable twice inside a value is an ordinary finite value
+    row, pair, ent = [1, 2, 3], (1, 'a'), {'k': [1]}
+    fixed_cases += [(row, row), [row, row], {'a': row, 'b': row}, (pair, pair), [pair, pair], [ent, ent], (row, [row, row]), {'x': (row, row)}]
     for v in fixed_cases:
         n += 1
         f = infer_case(v, True)
